@@ -414,6 +414,8 @@ def api_name(rec):
         return ("regression." if str(w).startswith("mandy") else "transform.") + str(w)
     if name == "dd_arr":
         return "regression.arr"
+    if name == "qc_sampling":
+        return "quantum_computation.sampling"
     if name == "dd_tedmd":
         return "tedmd.amuset_" + str(w)
     if name == "dd_build":
@@ -1626,6 +1628,28 @@ def _dd_build():
         if mname == "toll_station":
             return mdl.toll_station(n + 1, n + 1)
         return mdl.two_step_destruction(1.0, 2.0, 1.0, n + 2)
+    return choose, execute
+
+
+@op("qc_sampling", roles=("quantum_state",), group="data", weight=1.0)
+def _qc_sampling():
+    """quantum_computation.sampling takes a TT argument too: whatever it returns, the state must be left alone (that
+    its output is the Born distribution is C20's business and needs a normalised right-orthonormal state)."""
+    def choose(ctx):
+        a = ctx.pick(lambda m: is_vec(m) and closed(m) and all(x == 2 for x in m[1]) and m[0] <= 8)
+        if a is None or not ctx.tame(a):
+            return None
+        n = ctx.meta(a)[0]
+        k = ctx.rnd.randint(1, n)
+        return {"op": "qc_sampling", "in": {"quantum_state": a}, "dest": [],
+                "args": {"measure": sorted(ctx.rnd.sample(range(n), k)), "N": ctx.rnd.choice((1, 7, 64))}}
+
+    def execute(run, rec, A, g):
+        import scikit_tt.quantum_computation as qc
+        t = A["quantum_state"]
+        a = rec["args"]
+        _need(_vec(t) and all(x == 2 for x in t.row_dims) and max(a["measure"]) < t.order)
+        return qc.sampling(t, list(a["measure"]), a["N"])
     return choose, execute
 
 
